@@ -88,7 +88,12 @@ def presence_mask(I, kind, t, n):
     out = []
     for f in range(n):
         x = B.isnan_list(I, g[f])[0]
-        out.append(not I.truth(x))
+        present = not I.truth(x)
+        if present and B.ALLOW_INF[0]:
+            # +-inf in the deciding component: the library (masked_invalid) stores the
+            # frame as a gap, so it counts as missing for the run-length obligations
+            present = not I.truth(B.isinf_list(I, g[f])[0])
+        out.append(present)
     return out
 
 
@@ -260,6 +265,11 @@ def shapes(tier: str, pid: str):
                 A((kind, {"n": 2, key: 3, "lab": 0, "links": 0}))
                 A((kind, {"n": 3, key: 3, "lab": 0, "links": 0}))
                 A((kind, {"n": 6, key: 2, "lab": 0, "links": 0}))
+            # a frame whose deciding component is +-inf is stored as a gap: the run table,
+            # the data section and the decoder must agree on that too
+            for n in ([2, 3] if q else [1, 2, 3, 4, 5]):
+                A((kind, {"n": n, key: 1, "lab": 0, "links": 0, "allow_inf": True}))
+            A((kind, {"n": 2, key: 2, "lab": 0, "links": 0, "allow_inf": True}))
         return out
     # C01 / C02
     frames = [1, 2, 3] if q else [1, 2, 3, 4, 5, 6]
